@@ -139,6 +139,10 @@ def _query(rng: Any, n_rows: int, dict_cursor: bool, hz: dict[str, bool]) -> dic
         elif r < 0.75:
             alias = rng.choice(['"quoted Name"', '"lower"', "ALIAS1", "alias2"])
             it = {"expr": f"{c} AS {alias}", "col": c, "name": alias.strip('"') if alias.startswith('"') else alias.upper()}
+        elif r < 0.8:
+            # text that only looks like statement structure: a semicolon / comment marker inside a literal or a quoted alias
+            lit, alias = rng.choice([("'semi;colon'", '"k;v"'), ("'dash--dash'", "LIT1"), ("'a;b;c'", "LIT2"), ("'/* x */'", '"al;ias"')])
+            it = {"expr": f"{lit} AS {alias}", "col": None, "name": alias.strip('"') if alias.startswith('"') else alias, "cls": "str", "tc": (2, None, None)}
         elif r < 0.9:
             it = {"expr": "ID + 1", "col": None, "name": None, "cls": "int", "tc": (0, None, 0)}
         else:
